@@ -385,6 +385,38 @@ class Sym:
     def sym_len(self):
         return wrap(z3.Length(self.e))
 
+    def count(self, sub):
+        """number of (non-overlapping) occurrences of a non-empty pattern: exact for 0 and 1, a lower bound 2 otherwise"""
+        es = to_z3(sub)
+        i = z3.IndexOf(self.e, es, 0)
+        rest = z3.SubString(self.e, i + z3.Length(es), z3.Length(self.e))
+        c = z3.Int(fresh_name("count"))
+        p = cur()
+        p.assume(z3.And(c >= 0, (c == 0) == z3.Not(z3.Contains(self.e, es)),
+                        (c == 1) == z3.And(z3.Contains(self.e, es), z3.Not(z3.Contains(rest, es)))))
+        return wrap_num(c)
+
+    def split(self, sep=None, maxsplit=-1):
+        """str.split(sep) for a non-empty separator: forks on 0 / 1 / more occurrences"""
+        if sep is None or maxsplit != -1:
+            raise Unsupported("str.split without separator / with maxsplit on a symbolic string")
+        es = to_z3(sep)
+        p = cur()
+        if not p.branch(z3.Contains(self.e, es)):
+            return [self]
+        i = z3.IndexOf(self.e, es, 0)
+        head = wrap(z3.SubString(self.e, 0, i))
+        rest = z3.SubString(self.e, i + z3.Length(es), z3.Length(self.e))
+        if not p.branch(z3.Contains(rest, es)):
+            return [head, wrap(rest)]
+        return ManyParts(self, sep)
+
+    def strip(self, chars=None):
+        raise Unsupported("str.strip on a symbolic string")
+
+    def isdigit(self):
+        return wrap(z3.InRe(self.e, z3.Plus(z3.Range("0", "9"))))
+
     def __iter__(self):
         if self.kind != "str":
             raise TypeError("'%s' object is not iterable" % {"int": "int", "real": "float", "bool": "bool"}.get(self.kind, self.kind))
@@ -527,3 +559,17 @@ def contains_sym(x, _depth=0):
         if isinstance(x, tuple):
             return any(contains_sym(v, _depth + 1) for v in x)
     return False
+
+
+class ManyParts:
+    """result of splitting a symbolic string that holds the separator at least twice: only its length (>= 3) is known"""
+    _pyvc_symbolic = True
+
+    def __init__(self, s, sep):
+        self.s, self.sep = s, sep
+
+    def __iter__(self):
+        raise Unsupported("iteration over the parts of a symbolic string with >= 2 separators")
+
+    def __len__(self):
+        raise Unsupported("len of ManyParts")
